@@ -717,13 +717,22 @@ mod unstable {
                                                     variables.clone(),
                                                 )
                                             {
-                                                ct_copy.retain(|t| {
-                                                    t != &Formula::AtomicFormula(
-                                                        AtomicFormula::Comparison(
-                                                            drop_term.clone(),
-                                                        ),
-                                                    )
-                                                });
+                                                let reflexive =
+                                                    drop_term.term == drop_term.guards[0].term;
+                                                if c1 == c2 && !reflexive {
+                                                    // Both equalities are the same formula
+                                                    // `X = t`: only the duplicate is redundant,
+                                                    // one copy has to stay.
+                                                    ct_copy.remove(j);
+                                                } else {
+                                                    ct_copy.retain(|t| {
+                                                        t != &Formula::AtomicFormula(
+                                                            AtomicFormula::Comparison(
+                                                                drop_term.clone(),
+                                                            ),
+                                                        )
+                                                    });
+                                                }
                                                 let keep = match keep_var.sort {
                                                     Sort::General => {
                                                         GeneralTerm::Variable(keep_var.name)
